@@ -307,4 +307,121 @@ example : ∃ w', EvalsTo [100] (.value .none) 0 w1 1 .none w' := by
   · cases hv
   · cases he
 
+
+/-! ### the three-part slice node and the callbacks of the higher-order builtins, big step -/
+
+/-- **three-part slice, big step**: the bounds `a : b : c` are evaluated in source order, each completely and exactly once,
+    each cast to an integer (or None) as soon as it is a value, and the slice object is built from the three casts -/
+theorem slice_big_step {B a b c vmi w na va wa nb vb wb nc vc wc xa xb xc}
+    (ha : EvalsTo B a vmi w na va wa) (hb : EvalsTo B b vmi wa nb vb wb) (hc : EvalsTo B c vmi wb nc vc wc)
+    (ca : safeCastInt va = .ok xa) (cb : safeCastInt vb = .ok xb) (cc : safeCastInt vc = .ok xc) (k : List Frame) :
+    run (na + 1 + (nb + 1) + (nc + 1)) ((enter (.slice a b c) vmi k w).withBudgets B) =
+      (mkRet (.slice xa xb xc) k wc).withBudgets B := by
+  have e0 : (enter (.slice a b c) vmi k w).withBudgets B =
+      { ctl := .ev a vmi, k := .sliceK [] [b, c] vmi :: k, w := w, budgets := B } := rfl
+  have e1 : (resume (.sliceK [] [b, c] vmi) va k wa).withBudgets B =
+      { ctl := .ev b vmi, k := .sliceK [xa] [c] vmi :: k, w := wa, budgets := B } := by
+    simp only [resume, ca]; rfl
+  have e2 : (resume (.sliceK [xa] [c] vmi) vb k wb).withBudgets B =
+      { ctl := .ev c vmi, k := .sliceK [xb, xa] [] vmi :: k, w := wb, budgets := B } := by
+    simp only [resume, cb]; rfl
+  have e3 : (resume (.sliceK [xb, xa] [] vmi) vc k wc).withBudgets B = (mkRet (.slice xa xb xc) k wc).withBudgets B := by
+    simp only [resume, cc]; rfl
+  rw [e0, run_add (na + 1 + (nb + 1)) (nc + 1), run_add (na + 1) (nb + 1), operand_then_frame _ ha, e1, operand_then_frame _ hb, e2, operand_then_frame _ hc, e3]
+
+/-- … and a bound that is not an integer stops the evaluation there: the later bounds are never entered -/
+theorem slice_first_bound_rejected {B a b c vmi w na va wa e}
+    (ha : EvalsTo B a vmi w na va wa) (ca : safeCastInt va = .error e) (k : List Frame) :
+    run (na + 1) ((enter (.slice a b c) vmi k w).withBudgets B) = (mkRaise e k wa).withBudgets B := by
+  have e0 : (enter (.slice a b c) vmi k w).withBudgets B =
+      { ctl := .ev a vmi, k := .sliceK [] [b, c] vmi :: k, w := w, budgets := B } := rfl
+  rw [e0, operand_then_frame _ ha]
+  simp only [resume, ca]
+
+/-- … and if a bound raises, the later bounds are never entered and no slice is built -/
+theorem slice_first_bound_raises {B a b c vmi w na e wa}
+    (ha : RaisesIn B a vmi w na e wa) (k : List Frame) :
+    run (na + 1) ((enter (.slice a b c) vmi k w).withBudgets B) = (unwind (.sliceK [] [b, c] vmi) e k wa).withBudgets B := by
+  have e0 : (enter (.slice a b c) vmi k w).withBudgets B =
+      { ctl := .ev a vmi, k := .sliceK [] [b, c] vmi :: k, w := w, budgets := B } := rfl
+  rw [e0, operand_raises_then_unwind _ ha]
+
+/-- the function value `g`, applied to `args` alone from world `w`, returns `v` in world `w'` after `n` steps
+    (`fuel` is the trampoline bound of `callVal`; the callbacks of map / filter / reduce / sorted run with `callFuel - 1`) -/
+def CallsTo (B : List Nat) (fuel : Nat) (g : Val) (args : List Val) (w : World) (n : Nat) (v : Val) (w' : World) : Prop :=
+  run n ((callVal fuel g args [] w).withBudgets B) = { ctl := .ret v, k := [], w := w', budgets := B } ∧
+  ∀ i, i < n → ¬ Underflow (run i ((callVal fuel g args [] w).withBudgets B)).core
+
+theorem call_in_context {B fuel g args w n v w'} (h : CallsTo B fuel g args w n v w') (k0 : List Frame) :
+    run n ((callVal fuel g args k0 w).withBudgets B) = { ctl := .ret v, k := k0, w := w', budgets := B } := by
+  have e : (callVal fuel g args k0 w).withBudgets B = ((callVal fuel g args [] w).withBudgets B).app k0 := by
+    have := (call_app (k0 := k0) fuel).1 g args [] w
+    simp only [List.nil_append] at this
+    rw [this]; rfl
+  rw [e, run_app n _ k0 h.2, h.1]
+  simp [Cfg.app]
+
+/-- the accumulator after a callback returned `v` for element `cur` (what `resume (.iterK …)` computes) -/
+def accAfter (kind : IterKind) (h : Heap) (v cur : Val) (acc : List Val) : List Val :=
+  match kind with
+  | .map => v :: acc
+  | .filter => if truthy h v then cur :: acc else acc
+  | .reduce => [v]
+  | .sortKeys _ _ _ => v :: acc
+
+/-- the arguments the callback gets for `item` -/
+def cbArgs (kind : IterKind) (acc item : List Val) : List Val :=
+  match kind with
+  | .reduce => acc.headD .none :: item
+  | _ => item
+
+/-- the callbacks of one higher-order call, one after the other: the next element is fetched (`nextItem`: from the live
+    list, or from the snapshot) in the world the previous callback left, `g` is applied to it alone, the accumulator is
+    updated; `n` counts all steps including one hand-over step after each callback -/
+inductive IterRuns (B : List Nat) (kind : IterKind) (g : Val) : World → IterSrc → List Val → Nat → IterSrc → List Val → World → Prop
+  | done {w src acc} : nextItem w.heap src = none → IterRuns B kind g w src acc 0 src acc w
+  | next {w src acc item src' n v w1 m srcE accE w2} : nextItem w.heap src = some (item, src') →
+      CallsTo B (callFuel - 1) g (cbArgs kind acc item) w n v w1 →
+      IterRuns B kind g w1 src' (accAfter kind w1.heap v (item.headD .none) acc) m srcE accE w2 →
+      IterRuns B kind g w src acc (n + 1 + m) srcE accE w2
+
+/-- **callbacks of map / filter / reduce / sorted, big step**: the callback is applied to the elements in iteration
+    order, each application completely (its own `n` steps, exactly as if alone) and exactly once before the next
+    element is fetched, and only after the last one is the result built from the accumulated values -/
+theorem hof_big_step {B kind g} (k : List Frame) {w src acc n srcE accE w2}
+    (h : IterRuns B kind g w src acc n srcE accE w2) :
+    run n ((iterNext callFuel kind g src acc k w).withBudgets B) =
+      (iterNext callFuel kind g srcE accE k w2).withBudgets B ∧ nextItem w2.heap srcE = none := by
+  induction h with
+  | done hn => exact ⟨rfl, hn⟩
+  | @next w src acc item src' n v w1 m srcE accE w2 hn hc _ ih =>
+    refine ⟨?_, ih.2⟩
+    have e0 : (iterNext callFuel kind g src acc k w).withBudgets B =
+        (callVal (callFuel - 1) g (cbArgs kind acc item) (.iterK kind g src' (item.headD .none) acc :: k) w).withBudgets B := by
+      show (iterNext (63 + 1) kind g src acc k w).withBudgets B = _
+      simp only [iterNext, hn]
+      cases kind <;> rfl
+    have e1 : run 1 { ctl := .ret v, k := .iterK kind g src' (item.headD .none) acc :: k, w := w1, budgets := B } =
+        (iterNext callFuel kind g src' (accAfter kind w1.heap v (item.headD .none) acc) k w1).withBudgets B := by
+      show step _ = _
+      cases kind <;> rfl
+    rw [run_add (n + 1) m, run_add n 1, e0, call_in_context hc, e1, ih.1]
+
+/-- what happens after the last callback of `map` / `filter`: the accumulated values, in iteration order, become a new list -/
+theorem map_filter_finish (kind : IterKind) (hk : kind = .map ∨ kind = .filter) (g : Val) (src : IterSrc) (acc : List Val)
+    (k : List Frame) (w : World) (hn : nextItem w.heap src = none) :
+    iterNext callFuel kind g src acc k w =
+      mkRet (.ref (w.heap.alloc (.list acc.reverse)).2) k { w with heap := (w.heap.alloc (.list acc.reverse)).1 } := by
+  show iterNext (63 + 1) kind g src acc k w = _
+  rcases hk with rfl | rfl <;> simp only [iterNext, hn]
+
+/-- … of `reduce`: the last callback's value is the result -/
+theorem reduce_finish (g : Val) (src : IterSrc) (acc : List Val) (k : List Frame) (w : World)
+    (hn : nextItem w.heap src = none) : iterNext callFuel .reduce g src acc k w = mkRet (acc.headD .none) k w := by
+  show iterNext (63 + 1) .reduce g src acc k w = _
+  simp only [iterNext, hn]
+
+/-- non-vacuity: `map` of the builtin `str` over a one-element snapshot -/
+example : ∃ n srcE accE w2, IterRuns [100] .map (.builtin "str") w1 (.snap [[.str ['a']]]) [] n srcE accE w2 :=
+  ⟨_, _, _, _, IterRuns.next (n := 0) (v := .str ['a']) (w1 := w1) rfl ⟨by rfl, fun i hi => by omega⟩ (IterRuns.done rfl)⟩
 end SqProps.C09
